@@ -15,8 +15,13 @@ fn fj(f: &Fam) -> J {
 fn build_arena(ar: &mut ZddArena, f: &Fam, alt: bool) -> ZddHandle {
     let mut h = ar.empty();
     let sets: Vec<&Vec<u32>> = if alt { f.iter().rev().collect() } else { f.iter().collect() };
-    for s in sets {
-        let x = ar.from_set(s);
+    for (n, s) in sets.into_iter().enumerate() {
+        // from_set takes a slice, not a set: in the alternative build the same set is spelled with a repeated element, ascending or descending
+        let spelled: Vec<u32> = if !alt || s.is_empty() { s.clone() } else {
+            let mut v = s.clone();
+            match n % 3 { 0 => { v.insert(0, s[0]); v } 1 => { v.push(*s.last().unwrap()); v.reverse(); v } _ => { v.insert(v.len() / 2, s[v.len() / 2]); v } }
+        };
+        let x = ar.from_set(&spelled);
         h = ar.union(h, x);
     }
     h
